@@ -43,7 +43,10 @@ const char *DOMAIN = "thr";
 
 const char *__tsan_default_options(void)
 {
-	return "halt_on_error=0 exitcode=0 report_signal_unsafe=0 atexit_sleep_ms=0";
+	/* exitcode: what the runtime exits with when IT dies (internal fatal error, deadly signal it
+	 * handles); must not be 0 or a crashed child would look like a silent success.  A child that
+	 * finishes leaves through a raw exit_group(0) so that tolerated reports do not turn into 67. */
+	return "halt_on_error=0 exitcode=67 report_signal_unsafe=0 atexit_sleep_ms=0 handle_segv=0 handle_sigbus=0 handle_abort=0";
 }
 
 extern int __tsan_get_report_data(void *report, const char **description, int *count, int *stack_count,
@@ -364,6 +367,7 @@ void run_case(char *rest)
 		else printf("BADLINE");
 		printf(" volrd %d", tolerated_reports ? 1 : 0);
 		fflush(stdout);
+		syscall(SYS_exit_group, 0);
 		_exit(0);
 	}
 	while (waitpid(pid, &status, 0) < 0 && errno == EINTR) {}
@@ -379,6 +383,7 @@ void run_case(char *rest)
 		}
 		fflush(stderr);
 		if (WIFEXITED(status) && WEXITSTATUS(status) == 66) printf(" CRASH tsan:race");
+		else if (WIFEXITED(status) && WEXITSTATUS(status) == 67) printf(" CRASH tsan:fatal");
 		else if (WIFSIGNALED(status)) printf(" CRASH signal:%d", WTERMSIG(status));
 		else printf(" CRASH exit:%d", WEXITSTATUS(status));
 	}
